@@ -36,6 +36,9 @@ def check_tie_pass(ck, sources, label, max_programs=None, violation_limit=3):
         m = ml.get(f"t{i}", "(no-result)").strip()
         if m.startswith("(same)"):
             kind = "accepted: same typed program"
+            if "(safe-fragment 1)" in m:
+                k2 = "accepted and all premises of C05_accepted_programs_do_not_crash_the_compiler hold (in_sound_fragment, structs_sorted, sp_program, main_declared, tys_program)"
+                cnt[k2] = cnt.get(k2, 0) + 1
             if "(sound-fragment 1)" in m:
                 cnt["accepted and in the fragment where acceptance => Wt.v is proved (in_sound_fragment)"] = \
                     cnt.get("accepted and in the fragment where acceptance => Wt.v is proved (in_sound_fragment)", 0) + 1
